@@ -507,8 +507,18 @@ func c02DecompNTT(c *Ctx, po bool, ch c02Chain) {
 		return
 	}
 	r := c.rng
-	for _, logN := range []int{4, 5} {
-		params, err := rlwe.NewParametersFromLiteral(rlwe.ParametersLiteral{LogN: logN, Q: ch.Q, P: ch.P, NTTFlag: true})
+	// (rlwe.MinLogN = 4: DecomposeNTT is not reachable at N = 8)
+	type cfg struct {
+		logN int
+		rt   ring.Type
+	}
+	for _, cf := range []cfg{{4, ring.Standard}, {5, ring.Standard}, {4, ring.ConjugateInvariant}} {
+		logN := cf.logN
+		op := "decompntt"
+		if cf.rt == ring.ConjugateInvariant {
+			op = "decompnttci"
+		}
+		params, err := rlwe.NewParametersFromLiteral(rlwe.ParametersLiteral{LogN: logN, Q: ch.Q, P: ch.P, NTTFlag: true, RingType: cf.rt})
 		if err != nil {
 			c.Count("decompntt:param-error")
 			continue
@@ -542,8 +552,8 @@ func c02DecompNTT(c *Ctx, po bool, ch c02Chain) {
 				}
 				return strings.Join(parts, "/")
 			})
-			c.Emit(fmt.Sprintf("decompntt %d %s %s %s %s %d %d %d %d %d %s", N, Vec(ch.Q), Vec(gQ), Vec(ch.P), Vec(gP), levelQ, levelP, nbPi, size, isNTT, Mat(in)), out)
-			c.Count("decompntt")
+			c.Emit(fmt.Sprintf(op+" %d %s %s %s %s %d %d %d %d %d %s", N, Vec(ch.Q), Vec(gQ), Vec(ch.P), Vec(gP), levelQ, levelP, nbPi, size, isNTT, Mat(in)), out)
+			c.Count(op)
 		}
 	}
 }
